@@ -88,6 +88,11 @@ impl tower::Service<Request<Bytes>> for NodeService {
                 .unwrap_or_else(|| "?".into());
             let h = req.headers().clone();
             let id = h.get("id").cloned().unwrap_or_default();
+            let origin = match req.extensions().get::<anemo::ConnectionOrigin>().copied() {
+                Some(anemo::ConnectionOrigin::Inbound) => "in",
+                Some(anemo::ConnectionOrigin::Outbound) => "out",
+                None => "none",
+            };
             stats.log.lock().unwrap().push(format!(
                 "id={id} from={from} route={} body={} nh={}",
                 tohex(req.route().as_bytes()),
@@ -112,6 +117,7 @@ impl tower::Service<Request<Bytes>> for NodeService {
             resp.headers_mut().insert("srv".into(), idx.to_string());
             resp.headers_mut().insert("id".into(), id);
             resp.headers_mut().insert("seen-from".into(), from);
+            resp.headers_mut().insert("origin".into(), origin.into());
             guard.1 = true;
             Ok(resp)
         })
@@ -328,7 +334,7 @@ async fn net_cmd(
                     let from = resp.peer_id().map(|p| name(p)).unwrap_or("?".into());
                     let h = resp.headers();
                     format!(
-                        "ok st={} body={} sent={} id={} srv={} from={} seen={} pad={} t={}",
+                        "ok st={} body={} sent={} id={} srv={} from={} seen={} pad={} origin={} t={}",
                         resp.status().to_u16(),
                         digest(resp.body()),
                         sent,
@@ -337,6 +343,7 @@ async fn net_cmd(
                         from,
                         h.get("seen-from").cloned().unwrap_or_default(),
                         h.get("pad").map(|p| p.len()).unwrap_or(0),
+                        h.get("origin").cloned().unwrap_or_default(),
                         el()
                     )
                 }
@@ -519,6 +526,10 @@ async fn run_scenario(line: &[&str]) -> String {
                 format!("closed={} upgrade={up}", closed.map(|c| c.to_string()).unwrap_or("dropped".into()))
             }
             "now" => format!("{}", w.start.elapsed().as_micros()),
+            "idlt" => {
+                let (i, j): (usize, usize) = (t[1].parse().unwrap(), t[2].parse().unwrap());
+                format!("{}", (w.nodes[&i].peer_id < w.nodes[&j].peer_id) as u8)
+            }
             "fabstat" => { let (s, d) = w.fabric.stats(); format!("sent={s} dropped={d}") }
             other => format!("bad-cmd {other}"),
         };
